@@ -81,6 +81,18 @@ class Group:
     in_branch: list[tuple[int, int]] = field(default_factory=list)   # (branch id, alternative index)
     mandatory_in: set[int] = field(default_factory=set)   # ancestor groups inside which this group always participates
     unconditional: bool = False         # participates in every match
+    alt_cover: tuple[int, int] | None = None   # the group is the whole alternative `ai` of branch `bid`
+    parent: str | None = None           # nearest enclosing named group
+    optional_in_parent: bool = True     # an optional repeat or alternation lies between parent and this group
+
+
+@dataclass
+class Branch:
+    bid: int
+    n_alts: int
+    parent: str | None                  # nearest enclosing named group
+    mandatory_in_parent: bool           # the alternation itself always participates when the parent does
+    covers: dict[int, str] = field(default_factory=dict)   # alternative index -> named group covering it entirely
 
 
 def _width(items) -> tuple[int, int | None, bool]:
@@ -133,9 +145,14 @@ def groups(pattern: str, flags: int = 0) -> dict[str, Group]:
     """Facts about every named group: width, digit-only, whether it always
     participates when a given ancestor participates (no optional repeat and no
     alternation in between), and whether it participates in every match."""
+    return analyse(pattern, flags)[0]
+
+
+def analyse(pattern: str, flags: int = 0) -> tuple[dict[str, Group], dict[int, Branch]]:
     tree = parse(pattern, flags)
     names = {v: k for k, v in tree.state.groupdict.items()}
     out: dict[str, Group] = {}
+    branches: dict[int, Branch] = {}
     branch_id = [0]
 
     def walk(items, anc: list[int], optional_since: dict[int, bool], branch_ctx: list[tuple[int, int]], top_optional: bool):
@@ -148,6 +165,9 @@ def groups(pattern: str, flags: int = 0) -> dict[str, Group]:
                               in_branch=list(branch_ctx))
                     g.mandatory_in = {a for a in anc if not optional_since.get(a, True)}
                     g.unconditional = not top_optional
+                    named_anc = [a for a in anc if a in names]
+                    g.parent = names[named_anc[-1]] if named_anc else None
+                    g.optional_in_parent = optional_since.get(named_anc[-1], True) if named_anc else top_optional
                     out[g.name] = g
                     walk(sub, anc + [gi], {**optional_since, gi: False}, branch_ctx, top_optional)
                 else:
@@ -161,7 +181,14 @@ def groups(pattern: str, flags: int = 0) -> dict[str, Group]:
             elif op is C.BRANCH:
                 branch_id[0] += 1
                 bid = branch_id[0]
+                named_anc = [a for a in anc if a in names]
+                br = Branch(bid, len(av[1]), names[named_anc[-1]] if named_anc else None,
+                            (not optional_since.get(named_anc[-1], True)) if named_anc else (not top_optional))
+                branches[bid] = br
                 for ai, alt in enumerate(av[1]):
+                    real = [it for it in alt if it[0] is not C.AT]
+                    if len(real) == 1 and real[0][0] is C.SUBPATTERN and real[0][1][0] in names:
+                        br.covers[ai] = names[real[0][1][0]]
                     walk(alt, anc, {a: True for a in optional_since}, branch_ctx + [(bid, ai)], True)
             elif op in (C.ASSERT, C.ASSERT_NOT):
                 continue
@@ -171,7 +198,10 @@ def groups(pattern: str, flags: int = 0) -> dict[str, Group]:
     for g in out.values():
         g.ancestors = [idx_to_name.get(a, str(a)) for a in g.ancestors]  # type: ignore[misc]
         g.mandatory_in = {idx_to_name.get(a, str(a)) for a in g.mandatory_in}  # type: ignore[misc]
-    return out
+    for br in branches.values():
+        for ai, gname in br.covers.items():
+            out[gname].alt_cover = (br.bid, ai)
+    return out, branches
 
 
 _ = re
